@@ -30,7 +30,7 @@ def required_buckets(tier):
         req.append(f'C12/{n}/{d}/')
     for q in ('L', 'g', 'mol'):
         req += [f'C12/mol/L/q={q}/pure/accepted', f'C12/mol/L/q={q}/container/accepted']
-    req += ['C12/infeasible/above_stock', 'C12/infeasible/beyond_stock', 'C12/enz_bystander', 'C12/zero_entry_first', 'C12/infeasible/empty_solvent_container']
+    req += ['C12/infeasible/above_stock', 'C12/infeasible/beyond_stock', 'C12/enz_bystander', 'C12/zero_entry_first', 'C12/infeasible/empty_solvent_container', 'C12/rare_number_spelling']
     return req
 
 
@@ -176,6 +176,18 @@ def constructive(rng, case, idx):
             w.do('Container.create_solution_from', dict(step, conc=cbad, infeasible='above_stock'),
                  lambda: C.create_solution_from(stock, solute, cbad, solv_obj, qty),
                  expect={'op': 'Container.create_solution_from', 'must': 'refuse', 'tag': 'above_stock'})
+        if skind == 'pure' and solvent != solute and rng.random() < 0.3:
+            # a round request in a rarer spelling of the number ('50. mL', '5.e1 mL', '+50 mL', '.05 L'): half the stock's
+            # concentration, a tenth to a fifth of its volume
+            vol_mL = R.measure(stock.contents, 'L') * 1e3 * rng.uniform(0.1, 0.2)
+            if vol_mL >= 1:
+                n_ = int(float(f'{vol_mL:.1g}'))
+                c_half = spell_conc(rng, c_stock * 0.5, num, den, solute)
+                qround = rng.choice([f'{n_}. mL', f'+{n_} mL', f'{n_}.0 mL', f'{n_ / 1000:.6f}'.rstrip('0').replace('0.', '.', 1) + ' L'])
+                M.bucket('C12/rare_number_spelling')
+                w.do('Container.create_solution_from', dict(step, conc=c_half, q=qround, round_request=True),
+                     lambda: C.create_solution_from(stock, solute, c_half, solv_obj, qround),
+                     expect={'op': 'Container.create_solution_from', 'must': 'accept', 'tag': 'round_request_rare_number_spelling'})
         if rng.random() < 0.1:
             # a solvent container that holds nothing to dilute with (empty, or only an enzyme): nothing can be made
             M.bucket('C12/infeasible/empty_solvent_container')
